@@ -1022,10 +1022,19 @@ def stepDec (nested : Bool) (format fhex : String) (truth : Toks) (obs : String)
 def stepC15 (op obs : String) : String :=
   match words op with
   | ["crc", name, bits, init, hex] => stepCrc name bits init hex obs
-  | ["mdl", "tar", fhex] =>
-    -- model comparison only (files outside what fq supports: base-256 numbers): does the decode end in an error?
+  | "mdl" :: "tar" :: valid :: fhex :: truth =>
+    -- hand-made tar headers with numbers in base-256 (GNU / star extension). valid = 1: intact for a reader of the extension,
+    -- judged exactly like a `dec tar` line (model tokens + predicate: size and payload reported = written; a decode error is a
+    -- PROPFAIL — the repaired defect `could not decode size` would show here); 0: a size that does not fit 63 bits / negative:
+    -- never a clean result; 2: model comparison only (fields where fq shows a number but no description)
     match unhex fhex with
-    | some file => verdict (if (parseTar file).err then "err" else "ok") obs
+    | some file =>
+      let o := words obs
+      if valid == "1" then stepTar file truth o
+      else if valid == "0" then
+        verdictWith (if o.head? == some "err" then "OK" else "PROPFAIL tar: a size field that is not a 63 bit number gives a clean result") (tarModel file) o
+      else if valid == "2" then verdictWith "OK" (tarModel file) o
+      else "BADOP mdl valid"
     | none => "BADOP file hex"
   | ["zlb", valid, shex, sclen, sdata] => stepZlb valid shex sclen sdata obs
   | "dec" :: format :: fhex :: truth => stepDec false format fhex truth obs
